@@ -84,8 +84,7 @@ theorem Step_weaken {s : State} {G G' : Prop} {r : State × Nat} (h : Step s G r
 theorem Step_of_inv {s : State} {G : Prop} {r : State × Nat} (h : Inv r.1) : Step s G r :=
   ⟨h.core, fun _ _ => h.gainOk⟩
 
-theorem handlePayload_step (s : State) (d : Array Nat) (h : Core s) (hd : PayloadOk d)
-    (hg : u8at d 0 = 49 → GainOkAt s (u8at d FwLayout.GainUpdate_segment_off)) :
+theorem handlePayload_step (s : State) (d : Array Nat) (h : Core s) (hd : PayloadOk d) :
     Post (handlePayload s d) (fun r => Step s (PayloadComplete d) r) := by
   rw [handlePayload_eq]
   simp only [Post_ite]
@@ -97,7 +96,7 @@ theorem handlePayload_step (s : State) (d : Array Nat) (h : Core s) (hd : Payloa
   · exact Post_mono (changeModSegment_step s d h) (fun r hr => Step_weaken hr (fun _ => trivial))
   · exact Post_mono (configSilencer_step s d h) (fun r hr => Step_weaken hr (fun _ => trivial))
   · exact Post_mono (writeGain_step s d h) (fun r hr => Step_weaken hr (fun _ => trivial))
-  · exact Post_mono (changeGainSegment_step s d h (hg ‹_›)) (fun r hr => Step_weaken hr (fun _ => trivial))
+  · exact Post_mono (changeGainSegment_step s d h) (fun r hr => Step_weaken hr (fun _ => trivial))
   · exact Post_mono (changeGainStmSegment_step s d h) (fun r hr => Step_weaken hr (fun _ => trivial))
   · exact Post_mono (writeFociStm_step s d h (hd.2.1 ‹_›)) (fun r hr => Step_weaken hr (fun hc => hc.1 ‹_›))
   · exact Post_mono (changeFociStmSegment_step s d h) (fun r hr => Step_weaken hr (fun _ => trivial))
@@ -141,17 +140,8 @@ def FrameOk (f : Array Nat) : Prop :=
   (u16at f DrvLayout.Header_slot_2_offset_off ≠ 0 → PayloadOk (slot2 f) ∧ PayloadComplete (slot2 f))
 
 theorem handlePayload_inv (s : State) (d : Array Nat) (h : Inv s) (hd : PayloadOk d) (hc : PayloadComplete d) :
-    Post (handlePayload s d) (fun r => Inv r.1) := by
-  refine Post_mono (handlePayload_step s d h.core hd (fun h49 => ?_)) (fun r hr => ⟨hr.1, hr.2 h.gainOk hc⟩)
-  have := h.gainOk
-  have hle := u8at_lt d FwLayout.GainUpdate_segment_off
-  unfold GainOk at this
-  unfold GainOkAt at this ⊢
-  intro hm hcy
-  by_cases h0 : u8at d FwLayout.GainUpdate_segment_off = 0
-  · rw [h0] at hm hcy ⊢; exact this.1 hm hcy
-  · simp only [sel, h0, ↓reduceIte] at hm hcy ⊢
-    exact this.2 hm hcy
+    Post (handlePayload s d) (fun r => Inv r.1) :=
+  Post_mono (handlePayload_step s d h.core hd) (fun r hr => ⟨hr.1, hr.2 h.gainOk hc⟩)
 
 theorem ecatRecv_inv (s : State) (f : Array Nat) (h : Inv s) (hf : FrameOk f) :
     Post (ecatRecv s f) (fun s' => Inv s') := by
@@ -167,43 +157,30 @@ theorem ecatRecv_inv (s : State) (f : Array Nat) (h : Inv s) (hf : FrameOk f) :
     exact ⟨fun _ => hb.congr rfl, fun _ => hb.congr (view_set0 _ _)⟩
   · exact ha.congr (view_set0 _ _)
 
-/-! ### the partial (multi-frame) variant: only `Core`, with an explicit side condition for `GainSwapSegment` -/
-
-/-- a `GainSwapSegment` payload targets a segment that holds a plain gain as far as the division is concerned -/
-def GainSwapOk (s : State) (d : Array Nat) : Prop :=
-  u8at d 0 = 49 → GainOkAt s (u8at d FwLayout.GainUpdate_segment_off)
+/-! ### the multi-frame variant: only `Core`, every frame of a write without transition, arbitrary swaps -/
 
 /-- the state in which the first slot of frame `f` is handled -/
 def preState (s : State) (f : Array Nat) : State :=
   readFpgaState { s with lastMsgId := u8at f DrvLayout.Header_msg_id_off }
 
-def FrameOkCore (s : State) (f : Array Nat) : Prop :=
-  PayloadOk (slot1 f) ∧ GainSwapOk s (slot1 f) ∧
-  (u16at f DrvLayout.Header_slot_2_offset_off ≠ 0 → PayloadOk (slot2 f) ∧
-    ∀ s1 a, handlePayload (preState s f) (slot1 f) = .ok (s1, a) → GainSwapOk s1 (slot2 f))
+/-- both slots satisfy the flag discipline `PayloadOk` (no completeness requirement, no condition on
+swap payloads: since the repair of `change_gain_segment` every swap evaluates the guard itself) -/
+def FrameOkCore (f : Array Nat) : Prop :=
+  PayloadOk (slot1 f) ∧ (u16at f DrvLayout.Header_slot_2_offset_off ≠ 0 → PayloadOk (slot2 f))
 
-theorem GainOkAt.congr {s s' : State} {seg : Nat} (h : GainOkAt s seg) (hv : view s' = view s) : GainOkAt s' seg := by
-  have e1 : s'.stmMode = s.stmMode := congrArg View.stmMode hv
-  have e2 : s'.stmCycle = s.stmCycle := congrArg View.stmCycle hv
-  have e3 : s'.stmDiv = s.stmDiv := congrArg View.stmDiv hv
-  unfold GainOkAt at h ⊢; rw [e1, e2, e3]; exact h
+theorem FrameOk.core {f : Array Nat} (h : FrameOk f) : FrameOkCore f := ⟨h.1, fun h2 => (h.2.2 h2).1⟩
 
-theorem ecatRecv_core (s : State) (f : Array Nat) (h : Core s) (hf : FrameOkCore s f) :
+theorem ecatRecv_core (s : State) (f : Array Nat) (h : Core s) (hf : FrameOkCore f) :
     Post (ecatRecv s f) (fun s' => Core s') := by
   unfold ecatRecv
   simp only [Post_bind, Post_ite, Post_pure, Post_error, ADDR_CTL_FLAG, Post_ctlWrite_main, Nat.reduceLT]
-  obtain ⟨hf1, hg1, hf2⟩ := hf
+  obtain ⟨hf1, hf2⟩ := hf
   refine ⟨fun _ => h, fun _ => ⟨fun _ => h.congr (view_readFpgaState _), fun _ => ?_⟩⟩
-  refine fun a hpa => (?_ : _ ∧ _)
-  have hpre : Core (readFpgaState { s with lastMsgId := u8at f DrvLayout.Header_msg_id_off }) :=
-    h.congr (view_readFpgaState _)
-  have hgpre : GainSwapOk (readFpgaState { s with lastMsgId := u8at f DrvLayout.Header_msg_id_off }) (slot1 f) :=
-    fun h49 => (hg1 h49).congr (view_readFpgaState _)
-  have ha : Core a.1 := (handlePayload_step _ _ hpre hf1 hgpre a hpa).1
+  refine Post_mono (handlePayload_step _ _ (h.congr (view_readFpgaState _)) hf1) ?_
+  intro a ha'
+  have ha : Core a.1 := ha'.1
   refine ⟨fun _ => ha.congr rfl, fun _ => ⟨fun h2 => ⟨fun _ => trivial, fun _ => ?_⟩, fun _ => ?_⟩⟩
-  · have hg2 := (hf2 h2).2 a.1 a.2 hpa
-    refine Post_mono (handlePayload_step _ _ (ha.congr rfl) (hf2 h2).1
-      (fun h49 => (hg2 h49).congr rfl)) ?_
+  · refine Post_mono (handlePayload_step _ _ (ha.congr rfl) (hf2 h2)) ?_
     intro b hb
     exact ⟨fun _ => hb.1.congr rfl, fun _ => hb.1.congr (view_set0 _ _)⟩
   · exact ha.congr (view_set0 _ _)
@@ -269,31 +246,33 @@ theorem run_inv (as : List Action) : ∀ (s : State), Inv s → (∀ a ∈ as, A
     intro s' hs'
     exact ih s' hs' (fun b hb => hok b (by simp [hb]))
 
-/-- the state-dependent variant for `Core` only -/
-def ActionOkCore (s : State) : Action → Prop
-  | .frame f => FrameOkCore s f
+/-- the action condition for `Core` only -/
+def ActionOkCore : Action → Prop
+  | .frame f => FrameOkCore f
   | _ => True
 
-/-- every action of the history satisfies its (state-dependent) condition at the state where it is applied -/
-def RunOkCore : State → List Action → Prop
-  | _, [] => True
-  | s, a :: as => ActionOkCore s a ∧ ∀ s', stepA s a = .ok s' → RunOkCore s' as
+theorem ActionOk.core {a : Action} (h : ActionOk a) : ActionOkCore a := by
+  cases a with
+  | frame f => exact FrameOk.core h
+  | tick t => trivial
+  | thermo on => trivial
 
-theorem stepA_core (s : State) (a : Action) (h : Core s) (ha : ActionOkCore s a) :
+theorem stepA_core (s : State) (a : Action) (h : Core s) (ha : ActionOkCore a) :
     Post (stepA s a) (fun s' => Core s') := by
   cases a with
   | frame f => exact ecatRecv_core s f h ha
   | tick t => exact Post_mono (updateWithSysTime_view s t) (fun s' hv => Core_congr hv h)
   | thermo on => simp only [stepA, Post_ok]; exact Core_congr (setThermo_view s on) h
 
-theorem run_core (as : List Action) : ∀ (s : State), Core s → RunOkCore s as →
+theorem run_core (as : List Action) : ∀ (s : State), Core s → (∀ a ∈ as, ActionOkCore a) →
     Post (run s as) (fun s' => Core s') := by
   induction as with
   | nil => intro s h _; simpa [run] using h
   | cons a as ih =>
     intro s h hok
     simp only [run, Post_bind]
+    refine Post_mono (stepA_core s a h (hok a (by simp))) ?_
     intro s' hs'
-    exact ih s' (stepA_core s a h hok.1 s' hs') (hok.2 s' hs')
+    exact ih s' hs' (fun b hb => hok b (by simp [hb]))
 
 end Autd3.SilGuard
